@@ -1,6 +1,192 @@
-pub open spec fn gs_new_pre<M: Math, A: MassMatrixAdaptStrategy<M>>(options: EuclideanAdaptOptions<A::Options>, num_tune: u64) -> bool { true }
-pub open spec fn gs_new_post<M: Math, A: MassMatrixAdaptStrategy<M>>(options: EuclideanAdaptOptions<A::Options>, num_tune: u64, r: GlobalStrategy<M, A>) -> bool { true }
-pub open spec fn gs_adapt_pre<M: Math, A: MassMatrixAdaptStrategy<M>>(s: GlobalStrategy<M, A>, draw: u64) -> bool { true }
+//@include ../_shared/stepsize_spec.rs
+
+// =====================================================================================
+// Warm-up schedule, written from the statements of C06 and C09
+// =====================================================================================
+pub spec const BIG: u64 = 0x4000_0000;   // 2^30: machine-range bound on num_tune / window sizes (Adam casts its counter to i32)
+
+pub open spec fn max_u(a: int, b: int) -> int { if a >= b { a } else { b } }
+
+pub open spec fn gs_cfg_ok<M: Math, A: MassMatrixAdaptStrategy<M>>(s: GlobalStrategy<M, A>) -> bool {
+    &&& s.final_step_size_window <= s.num_tune
+    &&& s.num_tune <= BIG
+    &&& s.options.mass_matrix_switch_freq <= BIG
+    &&& s.options.early_mass_matrix_switch_freq <= BIG
+    &&& 1real <= s.options.mass_matrix_window_growth.r() <= 1024real
+    &&& s.step_size.options == s.options.step_size_settings
+}
+
+pub open spec fn gs_new_pre<M: Math, A: MassMatrixAdaptStrategy<M>>(options: EuclideanAdaptOptions<A::Options>, num_tune: u64) -> bool {
+    // C06.1: *every* num_tune >= 0 (up to the machine-range bound) and window fractions in [0,1)
+    &&& num_tune <= BIG
+    &&& 0real <= options.early_window.r() < 1real
+    &&& 0real <= options.step_size_window.r() < 1real
+    &&& options.mass_matrix_switch_freq <= BIG
+    &&& options.early_mass_matrix_switch_freq <= BIG
+    &&& 1real <= options.mass_matrix_window_growth.r() <= 1024real
+    &&& strat_opts_ok(options.step_size_settings)
+}
+
+pub open spec fn floor_of(x: real, o: int) -> bool { i2r(o) <= x && x < i2r(o) + 1real }
+
+pub open spec fn gs_new_post<M: Math, A: MassMatrixAdaptStrategy<M>>(options: EuclideanAdaptOptions<A::Options>, num_tune: u64, r: GlobalStrategy<M, A>) -> bool {
+    &&& r.num_tune == num_tune
+    &&& r.options == options
+    &&& r.tuning
+    &&& r.has_initial_mass_matrix
+    &&& r.last_update == 0
+    &&& r.current_window_size == options.mass_matrix_switch_freq
+    // early_end = floor(early_window * num_tune)
+    &&& floor_of(options.early_window.r() * i2r(num_tune as int), r.early_end as int)
+    // final window starts at num_tune - floor(step_size_window * num_tune)
+    &&& floor_of(options.step_size_window.r() * i2r(num_tune as int), num_tune - r.final_step_size_window)
+    &&& r.final_step_size_window <= num_tune
+    &&& r.mass_matrix_adapt.fg().len() == 0 && r.mass_matrix_adapt.bg().len() == 0
+    &&& strat_wf(r.step_size) && strat_budget(r.step_size) == 1
+    &&& gs_cfg_ok(r)
+    &&& gs_inv(r, 0)
+}
+
+/// invariant between calls of adapt; `draw` is the index the next call will get
+pub open spec fn gs_inv<M: Math, A: MassMatrixAdaptStrategy<M>>(s: GlobalStrategy<M, A>, draw: u64) -> bool {
+    &&& gs_cfg_ok(s)
+    &&& strat_wf(s.step_size)
+    &&& s.last_update <= draw
+    &&& s.mass_matrix_adapt.bg().len() <= draw
+    &&& s.current_window_size as int <= max_u(s.options.mass_matrix_switch_freq as int, s.num_tune as int)
+    &&& strat_budget(s.step_size) <= draw + 1
+}
+
+pub open spec fn gs_adapt_pre<M: Math, A: MassMatrixAdaptStrategy<M>>(s: GlobalStrategy<M, A>, draw: u64) -> bool {
+    gs_inv(s, draw) && draw < 0xffff_ffff_ffff_fff0
+}
+
+/// The schedule of one warm-up draw before the final step-size window (C09, from the property text).
+pub struct SchedOut { pub fg: Seq<Sample>, pub bg: Seq<Sample>, pub cws: int, pub switched: bool, pub reestimate: bool, pub late: bool }
+
+pub open spec fn next_window(cws: int, growth: real, early: bool, early_freq: int) -> int {
+    if early { early_freq } else { max_u(cws + 1, sat_u64(round_r(i2r(cws) * growth))) }
+}
+/// value of Rust's saturating `as u64` for an integral real
+pub open spec fn sat_u64(x: real) -> int {
+    if x <= 0real { 0 } else if x >= 18446744073709551615real { 18446744073709551615 } else { choose|o: int| i2r(o) <= x && x < i2r(o) + 1real }
+}
+
+pub open spec fn sched<M: Math, A: MassMatrixAdaptStrategy<M>>(s: GlobalStrategy<M, A>, draw: u64, good: bool, sample: Sample) -> SchedOut {
+    let early = draw < s.early_end;
+    // at the first main-phase draw the window size is seeded with max(configured, background count)
+    let cws0 = if !early && draw == s.early_end { max_u(s.current_window_size as int, s.mass_matrix_adapt.bg().len() as int) } else { s.current_window_size as int };
+    let threshold = if early { s.options.early_mass_matrix_switch_freq as int } else { cws0 };
+    let fg1 = if good { s.mass_matrix_adapt.fg().push(sample) } else { s.mass_matrix_adapt.fg() };
+    let bg1 = if good { s.mass_matrix_adapt.bg().push(sample) } else { s.mass_matrix_adapt.bg() };
+    let nw = next_window(cws0, s.options.mass_matrix_window_growth.r(), early, s.options.early_mass_matrix_switch_freq as int);
+    // another full window must still fit before the final step-size window
+    let fits = nw + draw <= s.final_step_size_window;
+    let switched = bg1.len() >= threshold && fits;
+    SchedOut {
+        fg: if switched { bg1 } else { fg1 },
+        bg: if switched { Seq::<Sample>::empty() } else { bg1 },
+        cws: if switched && !early { nw } else { cws0 },
+        switched: switched,
+        reestimate: switched || draw - s.last_update >= s.options.mass_matrix_update_freq,
+        late: !fits,
+    }
+}
+
+pub open spec fn acc_of(c: AcceptanceRateCollector) -> real { c.mean.sum.r() / i2r(c.mean.count as int) }
+pub open spec fn acc_sym_of(c: AcceptanceRateCollector) -> real { c.mean_sym.sum.r() / i2r(c.mean_sym.count as int) }
+
+/// configuration never touched; per-draw statistics taken from this draw's collector; tuning flag
+pub open spec fn gs_post_common<M: Math, A: MassMatrixAdaptStrategy<M>>(s0: GlobalStrategy<M, A>, s1: GlobalStrategy<M, A>, draw: u64,
+    c: CombinedCollector<M, TransformedPoint<M>, AcceptanceRateCollector, A::Collector>) -> bool
+{
+    &&& s1.num_tune == s0.num_tune && s1.early_end == s0.early_end
+    &&& s1.final_step_size_window == s0.final_step_size_window && s1.options == s0.options
+    &&& s1.step_size.options == s0.step_size.options
+    &&& s1.step_size.last_mean_tree_accept.r() == acc_of(c.collector1)
+    &&& s1.step_size.last_sym_mean_tree_accept.r() == acc_sym_of(c.collector1)
+    &&& s1.step_size.last_n_steps == c.collector1.mean.count
+    // [C06.2] tuning flag: cleared exactly from draw num_tune on, never set again
+    &&& s1.tuning == (s0.tuning && draw < s0.num_tune)
+}
+
+/// [C06.5] after warm-up: adaptation state frozen, only jitter around the averaged step
+pub open spec fn gs_post_after<M: Math, A: MassMatrixAdaptStrategy<M>>(s0: GlobalStrategy<M, A>, s1: GlobalStrategy<M, A>,
+    h0: TransformedHamiltonian<M, A::Transformation>, h1: TransformedHamiltonian<M, A::Transformation>) -> bool
+{
+    &&& s1.step_size.adaptation == s0.step_size.adaptation
+    &&& s1.mass_matrix_adapt == s0.mass_matrix_adapt
+    &&& s1.current_window_size == s0.current_window_size && s1.last_update == s0.last_update
+    &&& s1.has_initial_mass_matrix == s0.has_initial_mass_matrix
+    &&& h1.trans() == h0.trans()
+    &&& in_jitter_band(h1.step(), strat_base(s0.step_size, true), s0.options.step_size_settings.jitter)
+}
+
+/// [C06.4] final step-size window: transformation and estimators frozen; [C09] symmetric statistic
+pub open spec fn gs_post_final<M: Math, A: MassMatrixAdaptStrategy<M>>(s0: GlobalStrategy<M, A>, s1: GlobalStrategy<M, A>,
+    h0: TransformedHamiltonian<M, A::Transformation>, h1: TransformedHamiltonian<M, A::Transformation>, draw: u64,
+    c: CombinedCollector<M, TransformedPoint<M>, AcceptanceRateCollector, A::Collector>) -> bool
+{
+    &&& s1.mass_matrix_adapt == s0.mass_matrix_adapt
+    &&& s1.current_window_size == s0.current_window_size && s1.last_update == s0.last_update
+    &&& s1.has_initial_mass_matrix == s0.has_initial_mass_matrix
+    &&& h1.trans() == h0.trans()
+    &&& strat_advanced(s0.step_size.adaptation, s1.step_size.adaptation, acc_sym_of(c.collector1), s0.options.step_size_settings.target_accept.r())
+    // the last warm-up draw already uses the averaged step size
+    &&& in_jitter_band(h1.step(), strat_base(s1.step_size, draw == s0.num_tune - 1), s0.options.step_size_settings.jitter)
+}
+
+/// [C09.2] windowed phase
+pub open spec fn gs_post_window<M: Math, A: MassMatrixAdaptStrategy<M>>(s0: GlobalStrategy<M, A>, s1: GlobalStrategy<M, A>,
+    h0: TransformedHamiltonian<M, A::Transformation>, h1: TransformedHamiltonian<M, A::Transformation>, draw: u64,
+    c: CombinedCollector<M, TransformedPoint<M>, AcceptanceRateCollector, A::Collector>, ok: bool) -> bool
+{
+    let target = s0.options.step_size_settings.target_accept.r();
+    let e = sched(s0, draw, A::coll_good(&c.collector2), A::coll_sample(&c.collector2));
+    let stat = if e.late { acc_sym_of(c.collector1) } else { acc_of(c.collector1) };
+    let changed = h1.trans() != h0.trans();
+    &&& s1.mass_matrix_adapt.fg() == e.fg && s1.mass_matrix_adapt.bg() == e.bg
+    &&& s1.current_window_size as int == e.cws
+    // the transformation is re-estimated only on a switch or when the update frequency is due,
+    // and then from the (new) foreground estimator
+    &&& (changed ==> e.reestimate && h1.trans().id == h0.trans().id + 1
+            && A::estimated_from(h1.trans(), e.fg) && s1.last_update == draw)
+    &&& (!changed ==> s1.last_update == s0.last_update)
+    &&& s1.has_initial_mass_matrix == (s0.has_initial_mass_matrix && !changed)
+    // first change of the transformation re-runs the step-size search; otherwise one estimator update
+    &&& (changed && s0.has_initial_mass_matrix ==> exists|mid: Strategy| {
+            &&& strat_advanced(s0.step_size.adaptation, mid.adaptation, stat, target)
+            &&& #[trigger] ss_init_post(mid, s1.step_size, h0.step(), h1.step(), ok) })
+    &&& (!(changed && s0.has_initial_mass_matrix) ==> {
+            &&& ok
+            &&& strat_advanced(s0.step_size.adaptation, s1.step_size.adaptation, stat, target)
+            &&& in_jitter_band(h1.step(), strat_base(s1.step_size, false), s0.options.step_size_settings.jitter) })
+}
+
 pub open spec fn gs_adapt_post<M: Math, A: MassMatrixAdaptStrategy<M>>(s0: GlobalStrategy<M, A>, s1: GlobalStrategy<M, A>,
     h0: TransformedHamiltonian<M, A::Transformation>, h1: TransformedHamiltonian<M, A::Transformation>, draw: u64,
-    c: CombinedCollector<M, TransformedPoint<M>, AcceptanceRateCollector, A::Collector>, r: Result<(), NutsError>) -> bool { true }
+    c: CombinedCollector<M, TransformedPoint<M>, AcceptanceRateCollector, A::Collector>, r: Result<(), NutsError>) -> bool
+{
+    &&& gs_post_common(s0, s1, draw, c)
+    // invariant for the next call
+    &&& (r is Ok ==> gs_inv(s1, (draw + 1) as u64))
+    &&& (draw >= s0.num_tune ==> r is Ok && gs_post_after(s0, s1, h0, h1))
+    &&& (s0.final_step_size_window <= draw < s0.num_tune ==> r is Ok && gs_post_final(s0, s1, h0, h1, draw, c))
+    &&& (draw < s0.final_step_size_window ==> gs_post_window(s0, s1, h0, h1, draw, c, r is Ok))
+}
+
+pub proof fn lemma_floor_unique(x: real, a: int, b: int)
+    requires i2r(a) <= x, x < i2r(a) + 1real, i2r(b) <= x, x < i2r(b) + 1real
+    ensures a == b
+{
+}
+/// the value computed by `x.round() as u64` is sat_u64(round_r(x))
+pub proof fn lemma_sat_u64(x: real, o: u64)
+    requires f_to_u64_ok(x, o)
+    ensures o as int == sat_u64(x)
+{
+    if 0real < x && x < 18446744073709551615real {
+        let c = choose|c: int| i2r(c) <= x && x < i2r(c) + 1real;
+        lemma_floor_unique(x, o as int, c);
+    }
+}
